@@ -200,6 +200,10 @@ MinDistinct(n) == IF n >= 2048 THEN 200 ELSE IF n >= 1024 THEN 150 ELSE IF n >= 
 BitVaries(s) == \A p \in 1..Len(s[1]), bit \in 0..7 :
                    LET ones == Cardinality({k \in 1..Len(s) : (s[k][p] \div (2 ^ bit)) % 2 = 1})
                    IN 4 * ones >= Len(s) /\ 4 * ones <= 3 * Len(s)
+\* no byte position is a copy of (or tied to) another one: two positions agree in at most 1/8 of the draws
+\* (expected 1/256; for n >= 256 the bound is more than 20 standard deviations away)
+NoInternalCopy(s) == \A p \in 1..Len(s[1]), q \in 1..Len(s[1]) :
+                        p < q => 8 * Cardinality({k \in 1..Len(s) : s[k][p] = s[k][q]}) <= Len(s)
 Slice(v, a, z) == SubSeq(v, a, z)
 
 \* integer square root (largest r with r*r <= n), by bisection
@@ -221,6 +225,7 @@ TrDraws ==
           << <<"C15.noRepeat", Distinct(e.obs)>>,
              <<"C15.byteVaries", ByteVaries(e.obs, MinDistinct(n))>>,
              <<"C15.bitVaries", BitVaries(e.obs)>>,
+             <<"C15.noInternalCopy", NoInternalCopy(e.obs)>>,
              <<"C15.drawHappened", e.site = "Salt" => (hooked = n /\ allSite("Salt"))>>,
              <<"C15.usedIsDrawn", e.site = "Salt" => \A k \in 1..hooked : e.obs[k] = e.used[k] /\ e.used[k] = e.raw[k]>> >>
         ELSE IF e.site = "PrivateKey" THEN
@@ -228,6 +233,7 @@ TrDraws ==
              <<"C15.noRepeat", Distinct(e.obs) /\ Distinct(e.raw)>>,
              <<"C15.byteVaries", ByteVaries(e.raw, MinDistinct(n)) /\ ByteVaries(e.obs, MinDistinct(n) \div 2)>>,
              <<"C15.bitVaries", BitVaries(e.raw)>>,
+             <<"C15.noInternalCopy", NoInternalCopy(e.raw)>>,
              <<"C15.usedIsDrawn", hooked = n =>
                   \A k \in sample : /\ e.used[k] = e.raw[k]
                                     /\ e.obs[k] = (IF e.via = "into_proof" THEN ServerPub(WoWg, WoWN, e.ctx.v, e.used[k])
@@ -241,6 +247,7 @@ TrDraws ==
              <<"C15.noRepeat", Distinct(four)>>,
              <<"C15.byteVaries", ByteVaries(four, MinDistinct(n))>>,
              <<"C15.bitVaries", BitVaries(four)>>,
+             <<"C15.noInternalCopy", NoInternalCopy(four)>>,
              <<"C15.usedIsDrawn", hooked = per * n =>
                   \A k \in 1..n : \A j \in 1..4 :
                       /\ four[4 * (k - 1) + j] = e.used[per * (k - 1) + 3 + j]
